@@ -8,6 +8,7 @@ functions, which it interprets itself.  Any other construct raises
 Unsupported (reported as ANALYSIS-ERROR by the rules).
 """
 import ast
+import json
 import re
 
 MAX_STEPS = 400000
@@ -15,6 +16,10 @@ MAX_STEPS = 400000
 
 class Unsupported(Exception):
     pass
+
+
+class Raised(Unsupported):
+    """The interpreted function executed a raise statement."""
 
 
 class _Return(Exception):
@@ -30,7 +35,7 @@ SAFE_BUILTINS = {
 }
 SAFE_ATTR_CALLS = {
     're.escape': re.escape, 're.compile': re.compile, 're.match': re.match, 're.fullmatch': re.fullmatch, 're.search': re.search,
-    're.sub': re.sub,
+    're.sub': re.sub, 'json.dumps': json.dumps,
 }
 SAFE_METHODS = {
     str: {'join', 'replace', 'startswith', 'endswith', 'lower', 'upper', 'strip', 'lstrip', 'rstrip', 'split', 'format', 'isdigit',
@@ -71,6 +76,8 @@ class Interp:
             pos = pos[1:]
         if len(args) > len(pos) and not f.vararg:
             raise Unsupported('too many arguments for %s' % f.short)
+        if f.vararg:
+            env[f.vararg] = tuple(args[len(pos):])
         for p, a in zip(pos, args):
             env[p] = a
         for p in pos[len(args):] + f.kwonly:
@@ -82,6 +89,8 @@ class Interp:
                 raise Unsupported('missing argument %s of %s' % (p, f.short))
         if kwargs and not f.kwarg:
             raise Unsupported('unexpected keywords %s for %s' % (sorted(kwargs), f.short))
+        if f.kwarg:
+            env[f.kwarg] = dict(kwargs)
         if isinstance(f.node, ast.Lambda):
             return self.expr(f.node.body, env, f.mod)
         try:
@@ -147,7 +156,7 @@ class Interp:
         elif isinstance(s, ast.Pass):
             pass
         elif isinstance(s, ast.Raise):
-            raise Unsupported('interpreted function raises: %s' % ast.unparse(s)[:60])
+            raise Raised('interpreted function raises: %s' % ast.unparse(s)[:60])
         else:
             raise Unsupported('statement %s' % type(s).__name__)
 
@@ -270,9 +279,15 @@ class Interp:
             if full in ('re.DOTALL', 're.S'):
                 return re.DOTALL
             o = self.expr(e.value, env, mod) if not (isinstance(e.value, ast.Name) and e.value.id == 're') else None
+            if isinstance(o, tuple) and len(o) == 2 and o[0] == '#classof' and e.attr == '__name__':
+                return o[1].name
             if isinstance(o, Obj):
                 if e.attr in o.attrs:
                     return o.attrs[e.attr]
+                if e.attr == '__dict__':
+                    return o.attrs
+                if e.attr == '__class__' and o.cls is not None:
+                    return ('#classof', o.cls)
                 m = self.prog.lookup_method(o.cls.qn, e.attr) if o.cls else None
                 if m is not None:
                     return ('#bound', m, o)
